@@ -262,6 +262,12 @@ func cmdCheck(args []string) {
 	if lp := ledger.Props[*prop]; lp != nil && !*writeLedger {
 		var missing []string
 		for n := range lp {
+			// only obligations that belong to a contract clause (ensures, loop invariants,
+			// decreases, lemmas) are expected to persist; call-site, safety and frame
+			// obligations legitimately come and go with harmless refactorings
+			if strings.Contains(n, "/requires-at-call/") || strings.Contains(n, "/safety:") || strings.Contains(n, "/frame/") {
+				continue
+			}
 			if present[n] == 0 {
 				missing = append(missing, n)
 			}
